@@ -137,10 +137,11 @@ impl Unreal2Protocol {
                 .min(MAXIMUM_PLAYER_PREALLOCATION),
         );
 
-        // Fetch first players packet (with retries)
-        let mut players_data = self.get_request_data(PacketKind::Players);
-        // Players are non required so if we don't get any responses we continue to
-        // return
+        // Fetch first players packet (with retries). Whether an unanswered players
+        // request is fatal is decided by the caller's gather toggle (Try turns the
+        // error into an empty list, Enforce propagates it), so it is reported here.
+        let mut players_data = Ok(self.get_request_data(PacketKind::Players)?);
+        // Follow-up packets are optional: stop at the first receive error.
         while let Ok(data) = players_data {
             let mut buffer = Buffer::<LittleEndian>::new(&data);
 
